@@ -702,7 +702,8 @@ class ReaderHistories(object):
                 'errors are the package\'s and do not grow from request to request')
 
     SCRIPTS = ['index-appears', 'index-rewritten', 'index-removed', 'file-appears', 'oversize-first-variant', 'oversize-only',
-               'strict-zip-asked-twice']
+               'strict-zip-asked-twice', 'module-below-a-linked-directory', 'module-two-levels-below-a-linked-directory',
+               'module-below-a-link-to-a-link', 'module-is-a-linked-file']
 
     def blocks(self, tier):
         return [{}]
@@ -748,6 +749,26 @@ class ReaderHistories(object):
                 elif len(set(x[1] for x in seen)) != 1:
                     vs.append(('%s|error-text-changes-from-request-to-request' % sig, repr([x[1] for x in seen])))
                 return repr([x[:2] for x in seen])[:200], vs, 3
+            if sc.startswith('module-'):
+                # sub-directories are searched whatever kind of directory entry leads to them
+                served = os.path.join(root, 'served')
+                elsewhere = os.path.join(root, 'elsewhere', 'vendor-mibs')
+                os.makedirs(served)
+                os.makedirs(os.path.join(elsewhere, 'deeper'))
+                target = os.path.join(elsewhere, 'deeper' if 'two-levels' in sc else '', 'FOO-MIB.mib')
+                with open(target, 'w') as f:
+                    f.write('linked content')
+                if sc == 'module-is-a-linked-file':
+                    os.symlink(target, os.path.join(served, 'FOO-MIB.txt'))
+                elif sc == 'module-below-a-link-to-a-link':
+                    os.symlink(elsewhere, os.path.join(root, 'hop'))
+                    os.symlink(os.path.join(root, 'hop'), os.path.join(served, 'vendor'))
+                else:
+                    os.symlink(elsewhere, os.path.join(served, 'vendor'))
+                got = ask(FileReader(served), 'FOO-MIB')
+                if got[:2] != ('found', 'linked content'):
+                    vs.append(('%s|existing-file-not-served|%s' % (sig, got[0]), repr(got[:2])))
+                return repr(got[:2]), vs, 1
             r = FileReader(root)
             if sc.startswith('oversize'):
                 r.maxMibSize = 64
